@@ -36,7 +36,8 @@ ASSUMPTIONS = ["an exception raised by a read-only operation is not a mutation (
                "scenarios are file-expressible ones enriched with custom (vx, vy) trajectories without orientation, goal "
                "lanelet tables that are default dicts or cover only some goal states, obstacles with None defaults"]
 
-OPS = ["occupancies", "states", "scenario-queries", "lookups", "lanelet-geometry", "traffic-lights", "goal-check", "eq",
+OPS = ["occupancies", "states", "scenario-queries", "lookups", "lanelet-geometry", "merge-queries", "traffic-lights",
+       "goal-check", "eq",
        "hash", "copy", "deepcopy", "pickle", "str", "write-xml", "write-pb", "render"]
 
 
@@ -75,6 +76,7 @@ def deep_snapshot(sc, pps):
             d = s["network"]["traffic_lights"][str(tl.traffic_light_id)]
             d["cycle_init_timesteps"] = ("s", repr([int(v) for v in cyc.cycle_init_timesteps]))
             d["answers"] = ("s", ",".join(tl.get_state_at_time_step(t).name for t in range(0, 14)))
+    s["scenario_version"] = ("s", str(sc.scenario_id.scenario_version))
     p = sn.snap_pps(pps)
     for k, pp in pps.planning_problem_dict.items():
         lan = pp.goal.lanelets_of_goal_position
@@ -134,6 +136,16 @@ def run_op(op, sc, pps, r, d):
             la.find_lanelet_successors_in_range(sc.lanelet_network, 30.0)
             la.polygon
             la.inner_distance
+    elif op == "merge-queries":
+        # queries that build merged lanelets out of the network's lanelets (the inputs are only read)
+        from commonroad.scenario.lanelet import Lanelet
+        net = sc.lanelet_network
+        for la in net.lanelets:
+            Lanelet.all_lanelets_by_merging_successors_from_lanelet(la, net, 60.0)
+            for s in la.successor:
+                other = net.find_lanelet_by_id(s)
+                if other is not None:
+                    Lanelet.merge_lanelets(la, other)
     elif op == "traffic-lights":
         for tl in sc.lanelet_network.traffic_lights:
             for t in ts:
@@ -229,6 +241,13 @@ def check(r, ctx):
         with warnings.catch_warnings():
             warnings.simplefilter("ignore")
             sc, pps = build(r)
+            if r.get("assign"):
+                # part of the construction: the obstacles are registered on the lanelets they occupy
+                try:
+                    sc.assign_obstacles_to_lanelets()
+                    ctx.label("obstacles-assigned-to-lanelets")
+                except Exception as e:   # uncertain states etc.: C07's domain, not a mutation question
+                    ctx.label("assignment-raised:" + type(e).__name__)
             before = deep_snapshot(sc, pps)
             # taking the snapshot only reads (attributes, occupancies, light states): a second one must be identical
             diffs = sn.compare(before, deep_snapshot(sc, pps), lambda p: 0)
@@ -289,7 +308,7 @@ def s_case(draw, tier=None, ops=None, max_ops=6):
     from crverif.gen.pbprofile import pb_profile_base
     base, pbp = fp.xml_profile_base(), pb_profile_base()
     extra = {"time_of_day": [], "weather": [], "underground": [], "tags": sorted(set(base["tags"]) & set(pbp["tags"])),
-             "pb_sign_filter": True, "custom_extra": fp.PB_CUSTOM_EXTRA}
+             "pb_sign_filter": True, "custom_extra": fp.PB_CUSTOM_EXTRA, "min_types": 0}
     sc = draw(fp.file_scenario("xml", max_lanelets=4, max_obstacles=4, max_pps=2, min_pps=1, decimals=4,
                                extra_profile=extra))
     # enrich: trajectory of custom states with (velocity, velocity_y) and no orientation attribute
@@ -306,7 +325,8 @@ def s_case(draw, tier=None, ops=None, max_ops=6):
     return {"sc": sc, "goal_table": draw(st.sampled_from(["dict", "defaultdict"])),
             "ops": draw(st.lists(st.sampled_from(ops or OPS), min_size=1, max_size=max_ops)),
             "times": draw(st.lists(st.integers(0, 8), min_size=1, max_size=3)),
-            "export": draw(st.sampled_from([["xml"], ["pb"], ["xml", "pb"], []]))}
+            "export": draw(st.sampled_from([["xml"], ["pb"], ["xml", "pb"], []])),
+            "assign": draw(st.booleans())}
 
 
 NO_RENDER = [o for o in OPS if o != "render"]
